@@ -120,7 +120,7 @@ int main(void) {
   } else if ((rk == AST_For || rk == AST_While) && K > 0 && (nodes[K].identifier == AST_Block || nodes[K].identifier == AST_Scopeless_Block)) {
     __CPROVER_assert(untouched(0, 1), "C02: the loop's own children are untouched");
     for (int j = 0; j < G; j++) {
-      if (nodes[K + 1 + j].identifier == AST_Fun_Call) { __CPROVER_assert(expect < n_made && kids[K][j] == (char*)&made[expect] && made_kind[expect] == AST_Unused_Return_Fun_Call && made_text[expect] == (char*)&nodes[K + 1 + j].text, "C02: every call statement of a loop body becomes the no-copy call node (a loop body has no value)"); expect++; }
+      if (nodes[K + 1 + j].identifier == AST_Fun_Call) { __CPROVER_assert(expect < n_made && kids[K][j] == (char*)&made[expect] && made_kind[expect] == AST_Unused_Return_Fun_Call && made_text[expect] == (char*)&nodes[K + 1 + j].text && made_loc[expect] == nodes[K + 1 + j].location, "C02: every call statement of a loop body becomes the no-copy call node of the same text and location (a loop body has no value; C20: the call site keeps its own line and column)"); expect++; }
       else __CPROVER_assert(kids[K][j] == (char*)&nodes[K + 1 + j], "C02: non-calls of a loop body are untouched");
     }
     if (expect) __CPROVER_assert(0, "witness: loop call replaced");
